@@ -14,11 +14,14 @@ sliver-level add_*/remove_* functions of fim/graph/abc_property_graph.py, the st
   guarded b h  try: b  except Exception: h  where h calls a remover and ends with a bare `raise`
   tryelse b h  any other try
 
-`Generated/TopoOrder.lean` holds one entry per function.  Proofs/C09.lean checks with `decide` that every function is
-*single-write* (on no path does a step that can fail follow a write, Model/TopoC09.lean `OrderTok.singleWrite`) or has
-exactly the pinned shape of one of the calls whose atomicity rests on a named theorem (rollback handlers, multi-pass
-removals).  A validation moved behind the creation step, a second write added after the first, an `except` narrowed
-or a handler that no longer re-raises changes the table and breaks that theorem.
+`Generated/TopoOrder.lean` holds one entry per function.  Every function is either *single-write* (on no path does a step
+that can fail follow a write: `OrderTok.singleWrite`, Model/TopoC09.lean, proved sound in Proofs/Lemmas/TopoAtomicOrder.lean)
+or has exactly the shape pinned in Proofs/C09.lean (`pinnedOrder`) next to the theorem its atomicity rests on (rollback
+handlers, multi-pass removals); the Lean driver evaluates that on the table of every run (`orderOk`).
+A validation moved behind the creation step, a second write added after the first, an `except` narrowed or a handler that
+no longer re-raises changes the entry of a function that is not single-write: the extractor then refuses (ExtractionError
+naming the function and its new shape), the table of the unchanged tree stays in place (core's fallback to gen/baseline) and
+correspondence, oracle and the larger search decide - a concrete failing input, or a NOTE.
 
 An unknown statement kind is an ExtractionError.  Harmless rewrites (renaming, more validations *before* the write, comments,
 pure bookkeeping) leave the abstraction of a single-write function unchanged or still single-write.
@@ -272,8 +275,78 @@ def extract():
     return res
 
 
+def scan(toks, d=False):
+    """the scan of Model/TopoC09.lean (`OrderTok.scan`): None = on some path a step that can fail follows a write;
+    ("ret",) = every path returned; ("thru", d) = paths fall through, d = a write may have happened"""
+    for i, t in enumerate(toks):
+        k = t[0]
+        if k == "v":
+            if d:
+                return None
+        elif k == "w":
+            if d:
+                return None
+            d = True
+        elif k in ("c", "r"):
+            pass
+        elif k == "ret":
+            return ("ret",)
+        elif k == "ite":
+            a, b = scan(t[1], d), scan(t[2], d)
+            if a is None or b is None:
+                return None
+            if a == ("ret",) and b == ("ret",):
+                return ("ret",)
+            d = (a[1] if a != ("ret",) else False) or (b[1] if b != ("ret",) else False)
+        elif k == "loop":
+            a = scan(t[1], d)
+            if a is None:
+                return None
+            if a != ("ret",):
+                if scan(t[1], a[1]) is None:
+                    return None
+                d = a[1]
+        else:                       # guarded / tryelse: never by shape alone
+            return None
+    return ("thru", d)
+
+
+def single_write(toks):
+    return scan(toks) is not None
+
+
+def _baseline():
+    """function name -> Lean text of its tokens in the Generated file of the unchanged tree (gen/baseline), if there is one"""
+    import core
+    path = os.path.join(getattr(core, "BASELINE_DIR", os.path.join(VERIF, "gen", "baseline")), "TopoOrder.lean")
+    out = {}
+    try:
+        with open(path) as f:
+            for line in f:
+                line = line.strip().rstrip(",")
+                if line.startswith("def funcs : List Fn := ["):
+                    continue
+                if line.startswith("⟨\"") and "\", [" in line:
+                    name, rest = line[2:].split("\", ", 1)
+                    out[name] = rest.rstrip("]").rstrip("⟩") if rest.endswith("⟩]") else rest.rstrip("⟩")
+    except FileNotFoundError:
+        return None
+    return out
+
+
 def generate():
     res = extract()
+    base = _baseline()
+    changed_fns = []
+    if base is not None:
+        for n, t in res:
+            if not single_write(t) and base.get(n) != _lean(t):
+                changed_fns.append("%s: %s" % (n, render(t)))
+    if changed_fns:
+        # not a violation by itself: the table of the unchanged tree stays in place (core falls back to gen/baseline) and
+        # correspondence, oracle and the larger search decide
+        raise ExtractionError("write order changed in a function that is not single-write (a step that can raise now follows a "
+                              "write, or a rollback / multi-pass construct was edited): " + "; ".join(changed_fns))
     body = []
     body.append("/-- abstraction of one statement of a building function (gen/topoorder.py) -/")
     body.append("inductive Tok where\n  | v\n  | w (callee : String)\n  | c\n  | r\n  | ret\n  | ite (a b : List Tok)\n  | loop (b : List Tok)\n"
@@ -281,7 +354,8 @@ def generate():
     body.append("structure Fn where\n  name : String\n  toks : List Tok\n")
     body.append("def funcs : List Fn := [\n  " + ",\n  ".join("⟨%s, %s⟩" % (lean_str(n), _lean(t)) for n, t in res) + "]\n")
     changed = emit("TopoOrder", "\n".join(body))
-    return {"changed": changed, "functions": len(res), "shapes": {n: render(t) for n, t in res}}
+    return {"changed": changed, "functions": len(res), "single_write": [n for n, t in res if single_write(t)],
+            "pinned": {n: render(t) for n, t in res if not single_write(t)}}
 
 
 def generate_order():
